@@ -451,6 +451,19 @@ func (e *Exec) appendImpl(st *State, fr *Frame, in ssa.Instruction, s *SliceVal,
 	elemT := s.ElemT
 	if !isScalarType(elemT) {
 		// list semantics: always a fresh copy (aliasing through append is not modelled)
+		// conditional list (if-converted flag appends): append keeps the presence conditions
+		if s.Obj != 0 && tList != nil {
+			if av := e.sliceBacking(st, s); av.Conds != nil && s.Off.IsConst() && s.Off.C.Sign() == 0 {
+				nl := append(append([]Val{}, av.List...), tList...)
+				nc := append([]*Term{}, av.Conds...)
+				for range tList {
+					nc = append(nc, c.True())
+				}
+				ln := c.Add(av.Len, e.idx(int64(len(tList))))
+				id := e.newObj(st, &ArrayVal{ElemT: elemT, Len: ln, List: nl, Conds: nc, Unordered: av.Unordered || st.InMapRange}, &ObjMeta{T: types.NewArray(elemT, 0), Fresh: true})
+				return []callRes{{st, &SliceVal{Obj: id, Off: e.idx(0), Len: ln, Cap: ln, Nil: c.False(), ElemT: elemT}}}
+			}
+		}
 		var base []Val
 		symbolic := tList == nil
 		if s.Obj != 0 {
@@ -482,7 +495,11 @@ func (e *Exec) appendImpl(st *State, fr *Frame, in ssa.Instruction, s *SliceVal,
 		if len(nl) > 4096 {
 			e.bail("list too long")
 		}
-		id := e.newObj(st, &ArrayVal{ElemT: elemT, Len: e.idx(int64(len(nl))), List: nl}, &ObjMeta{T: types.NewArray(elemT, int64(len(nl))), Fresh: true})
+		unord := st.InMapRange
+		if s.Obj != 0 {
+			unord = unord || e.sliceBacking(st, s).Unordered
+		}
+		id := e.newObj(st, &ArrayVal{ElemT: elemT, Len: e.idx(int64(len(nl))), List: nl, Unordered: unord}, &ObjMeta{T: types.NewArray(elemT, int64(len(nl))), Fresh: true})
 		return []callRes{{st, &SliceVal{Obj: id, Off: e.idx(0), Len: e.idx(int64(len(nl))), Cap: e.idx(int64(len(nl))), Nil: c.False(), ElemT: elemT}}}
 	}
 	if tC == nil {
@@ -706,6 +723,31 @@ func (e *Exec) lookup(st *State, fr *Frame, in *ssa.Lookup) []stfr {
 				return nil
 			}
 		}
+		if !ms.Abstract && ms.Name != "" {
+			if kt, ok := k.(*Term); ok {
+				// large concrete table, symbolic key: membership is an uninterpreted predicate of the key
+				// (tied to the table by name); the value is unconstrained except for nil-ness.
+				okT := c.App("inmap_"+ms.Name, BoolS, kt)
+				allNonNil := true
+				for _, v := range ms.Vals {
+					if iv, isI := v.(*IfaceVal); isI && !iv.IsNil.IsFalse() {
+						allNonNil = false
+					}
+				}
+				val := e.freshOfType(st, vt, c.FreshName("tableval"))
+				if iv, isI := val.(*IfaceVal); isI {
+					if allNonNil {
+						iv.IsNil = c.Not(okT)
+					}
+				}
+				if sv, isS := val.(*StringVal); isS {
+					st.assume(c.Implies(c.Not(okT), c.Eq(sv.Len, e.idx(0))))
+				}
+				e.UsedIntrinsics["lookup in package-level table "+ms.Name+" with symbolic key: membership uninterpreted, value unconstrained"] = true
+				set(val, okT)
+				return nil
+			}
+		}
 		if h := e.W.lookupHook; h != nil {
 			if v, ok, done := h(e, st, fr, in, a, k); done {
 				set(v, ok)
@@ -745,6 +787,7 @@ func (e *Exec) next(st *State, fr *Frame, in *ssa.Next) []stfr {
 	if ms.Abstract {
 		e.bail("range over abstract map %s", ms.Name)
 	}
+	st.InMapRange = true
 	if it.Index < len(ms.Keys) {
 		fr.Env[in] = TupleVal{c.True(), ms.Keys[it.Index], ms.Vals[it.Index]}
 		fr.Env[in.Iter] = &IterVal{Kind: "map", Map: it.Map, Index: it.Index + 1}
